@@ -45,6 +45,11 @@ extern int mpt_notify_wait(MPT_STRUCT(notify) *no, int what, int timeout)
 	pslot = (void *) (no->_slot._buf + 1);
 	used  = no->_wait._buf ? no->_wait._buf->_used : 0;
 	
+	/* pending inputs share their storage with the poll data: hand them out first */
+	if (used) {
+		return (int) (used / sizeof(curr));
+	}
+	
 #if defined(__linux__)
 	if (no->_sysfd >= 0) {
 		struct epoll_event *epv;
